@@ -38,6 +38,10 @@ import EsbuildModel.Impl.C14FactsDriver
 import EsbuildModel.Impl.CrossChunkDriver
 import EsbuildModel.Impl.ExportMatchDriver
 import EsbuildModel.Impl.Lower3Wire
+import EsbuildModel.Impl.IsoHash
+import EsbuildModel.Impl.LineOffset
+import EsbuildModel.Impl.WatchLoop
+import EsbuildModel.Impl.MangleProps
 
 open EsbuildModel
 
@@ -86,6 +90,10 @@ def dispatch (kernel : String) (args : List String) : String :=
   | "objrest" => Lower3.driver args
   | "objrestsem" => Lower3.semDriver args
   | "objrestchk" => Lower3.chkDriver args
+  | "isohash" => IsoHash.driver args
+  | "lineoffset" => LineOffset.driver args
+  | "watchloop" => WatchLoop.driver args
+  | "mangleprops" => MangleProps.driver args
   | _ => "bad-kernel"
 
 partial def loop (hin hout : IO.FS.Stream) : IO Unit := do
